@@ -19,6 +19,7 @@ def curated():
 
     add('chain', S({'A1': 1, 'B1': '=A1+1', 'C1': '=B1*2', 'D1': '=C1&""'}), ranges=['S!A1:D1'])
     add('diamond', S({'A1': 2, 'B1': '=A1+1', 'C1': '=A1*3', 'D1': '=B1+C1'}), ranges=['S!B1:D1'])
+    add('triangle', S({'A1': 1, 'B1': '=A1+1', 'D1': '=A1*2', 'C1': '=A1+D1', 'E1': '=C1+B1'}), ranges=['S!B1:D1'])
     add('fan_range', S({'A1': 1, 'A2': 2, 'A3': 3, 'B1': '=SUM(A1:A3)', 'C1': '=B1+A2'}),
         ranges=['S!A1:A3', 'S!A1:C1'])
     add('nested', S({'A1': 1, 'A2': 2, 'B1': 3, 'B2': 4, 'C1': '=SUM(A1:B2)', 'C2': '=SUM(A1:A2)',
